@@ -99,7 +99,9 @@ def run_property(pid, tier, seed, only=None, jobs=None):
             reps.append(r)
     t1 = time.time()
     timeout = int(os.environ.get('VERIF_SOLVER_MS', 60000 if tier == 'thorough' else 20000))
-    discharge_parallel([r for r in reps if not r.error], timeout, jobs)
+    good = [r for r in reps if not r.error]
+    discharge_parallel(good, timeout, jobs)
+    retry_undischarged(good, timeout * 3)
     reports = []
     for c, r in zip(mine, reps):
         if r.error:
@@ -116,6 +118,32 @@ def run_property(pid, tier, seed, only=None, jobs=None):
     if X is not None:
         extras = X.run(pid, tier, seed, world)
     return finish(pid, tier, seed, mine, contracts, reports, extras, known, time.time() - t0)
+
+
+def retry_undischarged(reps, timeout_ms, limit=8):
+    """Obligations left open by the pool are checked once more, one at a time on an otherwise idle machine
+    (one path instance per obligation name, at most ``limit`` names), so that a verdict does not depend on
+    the load of the parallel phase."""
+    from .verify import check_obligation
+    done = {}
+    for rep in reps:
+        for oi, d in enumerate(rep.summary or []):
+            if d['verdict'] == 'unknown':
+                if d['name'] not in done:
+                    if len(done) >= limit:
+                        continue
+                    v, b, dt, model = check_obligation(rep.obligations[oi], timeout_ms)
+                    done[d['name']] = v
+                    if v == 'discharged':
+                        d.update(verdict=v, backend=b + '(retry)', t=round(d['t'] + dt, 3))
+                    continue
+    # instances of a name whose retried representative was discharged are retried as well
+    for rep in reps:
+        for oi, d in enumerate(rep.summary or []):
+            if d['verdict'] == 'unknown' and done.get(d['name']) == 'discharged':
+                v, b, dt, model = check_obligation(rep.obligations[oi], timeout_ms)
+                if v == 'discharged':
+                    d.update(verdict=v, backend=b + '(retry)', t=round(d['t'] + dt, 3))
 
 
 def finish(pid, tier, seed, mine, contracts, reports, extras, known, wall):
